@@ -122,9 +122,13 @@ class Ctx:
     def feasible(self, e):
         self.nq += 1
         self.solver.push()
-        self.solver.add(e)
-        r = self.solver.check()
-        self.solver.pop()
+        try:
+            self.solver.add(e)
+            r = self.solver.check()
+        except z3.Z3Exception:
+            r = z3.unknown            # e.g. 'reached max unfolding' in the sequence solver: treat as possibly feasible
+        finally:
+            self.solver.pop()
         if r == z3.unknown:
             self.unknown_feas += 1
         return r != z3.unsat
@@ -207,6 +211,8 @@ class Ctx:
             if self.solver.check() != z3.sat:
                 return None
             val = self.solver.model().eval(e, model_completion=True)
+        except z3.Z3Exception:
+            return None
         finally:
             self.solver.pop()
         if self.feasible(e != val):
